@@ -388,6 +388,11 @@ class FactoryOracle:
                     sh = self.mon.shadow(store)
                     exp = sh.free() > 0
                     self.mon.counters["c11_node_can_put_checked"] += 1
+                    if bool(res) != exp and L.node._spec.get("out_sel") == "FIRST_AVAILABLE":
+                        # C15: FIRST_AVAILABLE decides from this answer: it picks an edge that cannot serve / skips one that can
+                        self.mon.violation("C15", "first_available_out",
+                                           f"{L.type}:FIRST_AVAILABLE-" + ("chose-an-edge-that-cannot-serve" if res else "skipped-an-edge-able-to-serve") + ":wrong-can_put-answer",
+                                           {"node": L.id, "edge": edge.id, "answer": bool(res), "free": sh.free()})
                     if bool(res) != exp:
                         self.mon.violation("C11", "can_query_inexact", f"{sh.kind}:can_put={bool(res)}-but-free-space={sh.free()}",
                                            {"edge": edge.id, "held": len(sh.held), "granted_put": len(sh.grant["put"]), "cap": sh.cap})
